@@ -154,6 +154,9 @@ pub fn parse_enum_raw(key: &str, bytes: &[u8]) -> Result<String, String> {
         "io::Ack" => zvt::io::Ack::zvt_parse(bytes)
             .map(|v| match v {
                 zvt::io::Ack::Ack(a) => format!("Ack({a:?})"),
+                // tolerate variants added to the enum by a change under test (the harness must keep compiling)
+                #[allow(unreachable_patterns)]
+                _ => "OtherAckVariant(..)".to_string(),
             })
             .map_err(|e| format!("{e:?}")),
         "sequences::RegistrationResponse" => parse_dbg::<s::RegistrationResponse>(bytes),
